@@ -174,6 +174,16 @@ def runNumeric (k : String) (args : List String) : Option String := do
     let y ← decArr (α := α) y; let nd ← Codec.dec (α := α) nd; let p ← Codec.dec (α := α) p
     let llas ← decArr (α := α) llas
     pure (answerGcv (wcvp Carrier.gf (missAll nd) y p llas (robust == "1")))
+  | "wcvdiag", [y, nd, llas, robust] =>
+    -- best (score, lambda) after each robust iteration, on the cleaned data (diagnostic for criterion ties)
+    let y ← decArr (α := α) y; let nd ← Codec.dec (α := α) nd; let llas ← decArr (α := α) llas
+    let yc := cleanOf (missAll nd) y
+    let w := weightsOf (missAll nd) y
+    let G : GFns α := Carrier.gf
+    match gcvIter G yc w (deigs G yc.length) (llas.map G.pow10) (robust == "1") (sumF w)
+        (if robust == "1" then 4 else 1) 0 ⟨G.big, nat 0, none⟩ (yc.map fun _ => nat 1) [] with
+    | none => pure "err unbound"
+    | some (hist, rw) => pure s!"ok {encArr (hist.map (·.score))} {encArr (hist.map (·.lam))} {encArr (mul2 w rw)}"
   | "autocorr", [vals, mask] =>
     let v ← decArr (α := α) vals; let m ← decArr (α := Nat) mask
     let data := (v.zip m).map fun (x, k) => if k = 1 then some x else none
